@@ -200,6 +200,36 @@ pub fn run(ctx: &Ctx) -> Result<(), String> {
             }
         }
     }
+    // file structure: everything written in the file must be effective or the start refused — also
+    // when it is written in a second YAML document, twice, or after a document-end marker
+    {
+        let b = base.yaml();
+        let cases: Vec<(&str, String, Vec<(&str, Value)>)> = vec![
+            ("leading-document-marker", format!("---\n{}", b), vec![]),
+            ("second-document-override", format!("{}---\nbatch_size: 8\nfault_percentage: 25\n", b), vec![("batch_size", json!(8)), ("fault_percentage", json!(25))]),
+            ("second-document-out-of-range", format!("{}---\nbatch_size: 65\n", b), vec![("batch_size", json!(65))]),
+            ("second-document-unknown-key", format!("{}---\nfrobnicate: 1\n", b), vec![("frobnicate", json!(1))]),
+            ("after-document-end-marker", format!("{}...\n---\nnum_workers: 3\n", b), vec![("num_workers", json!(3))]),
+            ("key-written-twice", format!("{}batch_size: 8\nbatch_size: 9\n", b), vec![]),
+        ];
+        for (what, yaml, must_be_effective) in cases {
+            let o = crate::proc::cfgprobe_raw(&yaml)?;
+            evals.fetch_add(1, Relaxed);
+            nontrivial.fetch_add(1, Relaxed);
+            let accepted = o["accepted"] == true;
+            *classes.lock().unwrap().entry(format!("file-structure/{}:{}", what, if accepted { "accepted" } else { "refused" })).or_insert(0) += 1;
+            if what == "leading-document-marker" && !accepted {
+                ctx.violation("refused-valid", "file-structure", "File", json!({"kind":"probe-raw","case":what,"yaml":yaml,"probe":o}));
+            }
+            if accepted {
+                for (k, v) in &must_be_effective {
+                    if o["effective"][*k] != *v {
+                        ctx.violation("effective-differs-from-written", "file-structure", "File", json!({"kind":"probe-raw","case":what,"yaml":yaml,"message":format!("{} is written as {} in the file but the server would run with {}", k, v, o["effective"][*k]),"probe":o}));
+                    }
+                }
+            }
+        }
+    }
     if let Some(e) = failed.lock().unwrap().take() {
         return Err(e);
     }
@@ -375,6 +405,62 @@ pub fn run(ctx: &Ctx) -> Result<(), String> {
             }
         });
     }
+    // observed behaviour of status_interval with per-client statistics: the reporter persists a
+    // statistics file every status_interval seconds while there is traffic — with 1 a file must
+    // appear within 3.5 s, with 600 none may (both sources, real binary)
+    {
+        let cases: Vec<(u32, Source)> = vec![(1, Source::File), (1, Source::Env), (600, Source::File)];
+        let results: Mutex<Vec<(u32, Source, usize, String)>> = Mutex::new(vec![]);
+        std::thread::scope(|sc| {
+            for (iv, src) in cases.iter().cloned() {
+                let results = &results;
+                let failed = &failed;
+                sc.spawn(move || {
+                    let dir = crate::proc::scratch_dir();
+                    let dirs = dir.display().to_string();
+                    let r = crate::proc::start_serving(
+                        &|port| {
+                            let mut w = Written::base(port);
+                            w.set("num_workers", "1");
+                            w.set("client_stats", "on");
+                            w.set("persistence_directory", &dirs);
+                            w.set("status_interval", &iv.to_string());
+                            w
+                        },
+                        src,
+                        1,
+                        Duration::from_secs(10),
+                    );
+                    match r {
+                        Err(e) => *failed.lock().unwrap() = Some(e),
+                        Ok((mut sp, port)) => {
+                            let lt_pk = rtref::crypto::public_key(&rtref::crypto::unhex(BASE_SEED_HEX).try_into().unwrap());
+                            let t = std::time::Instant::now();
+                            while t.elapsed() < Duration::from_millis(3500) {
+                                let _ = crate::proc::probe_workers(port, &lt_pk, 2, 8, false);
+                                std::thread::sleep(Duration::from_millis(40));
+                            }
+                            let files = std::fs::read_dir(&dir).map(|rd| rd.flatten().filter(|e| e.file_name().to_string_lossy().ends_with(".csv.zst")).count()).unwrap_or(0);
+                            let shown = sp.stdout().lines().find(|l| l.contains("Status updates every")).unwrap_or("").to_string();
+                            results.lock().unwrap().push((iv, src, files, shown));
+                            sp.kill();
+                        }
+                    }
+                    let _ = std::fs::remove_dir_all(&dir);
+                });
+            }
+        });
+        for (iv, src, files, shown) in results.lock().unwrap().iter() {
+            behav_n.fetch_add(1, Relaxed);
+            let ok = if *iv == 1 { *files >= 1 } else { *files == 0 };
+            if !ok {
+                ctx.violation("effective-differs-from-written", "status_interval", "observed-behaviour", json!({"kind":"behaviour","status_interval":iv,"source":format!("{:?}", src),"message":format!("written status_interval {} s: {} statistics file(s) persisted within 3.5 s of traffic (expected {}); server displayed: {}", iv, files, if *iv == 1 { ">= 1" } else { "0" }, shown)}));
+            }
+        }
+    }
+    if let Some(e) = failed.lock().unwrap().take() {
+        return Err(e);
+    }
     let _ = std::fs::remove_dir_all(&pdir);
     ctx.cov("behaviour_probes", json!(behav_n.load(Relaxed)));
     ctx.cov("evaluations", json!(evals.load(Relaxed) + real_n.load(Relaxed)));
@@ -384,7 +470,7 @@ pub fn run(ctx: &Ctx) -> Result<(), String> {
     ctx.cov("outcome_classes", json!(*classes.lock().unwrap()));
     ctx.cov("exhaustive", json!(true));
     ctx.cov("bound", json!({"deviations": ctx.tier.pick(1, 2), "keys": 10}));
-    ctx.cov("rule", json!("configuration grid: for each documented key a boundary value list (minimum-1, minimum, typical, maximum, maximum+1, type-width wrap points 255/256/300/65535/65536/70000 and their modular images, negatives, non-numeric, empty; seed strings of length 62/63/66, non-hex, upper-case; client_stats spellings; missing required keys; an unknown file key); every (key,value) as ONE deviation from each of two valid bases (minimal; every optional key set, incl. per-client statistics with a writable directory) through the real make_config + is_valid_config in a probe process, from the YAML file and from the environment (thorough: all pairs of numeric deviations); plus the real server binary started on every 1-deviation point. Oracle (reference semantics of the documented keys): outcome is refused, or accepted with every getter equal to the written value; documented in-range values must be accepted; out-of-range/missing/unknown must be refused; file and ENV agree; the real binary refuses exactly what the probe refuses and displays the probe's values; observed behaviour: a Server built through the real file configuration path answers 2b+1 queued requests in batches of exactly {b, b, 1} for the written batch_size b."));
+    ctx.cov("rule", json!("configuration grid: for each documented key a boundary value list (minimum-1, minimum, typical, maximum, maximum+1, type-width wrap points 255/256/300/65535/65536/70000 and their modular images, negatives, non-numeric, empty; seed strings of length 62/63/66, non-hex, upper-case; client_stats spellings; missing required keys; an unknown file key); every (key,value) as ONE deviation from each of two valid bases (minimal; every optional key set, incl. per-client statistics with a writable directory) through the real make_config + is_valid_config in a probe process, from the YAML file and from the environment (thorough: all pairs of numeric deviations); plus the real server binary started on every 1-deviation point. Oracle (reference semantics of the documented keys): outcome is refused, or accepted with every getter equal to the written value; documented in-range values must be accepted; out-of-range/missing/unknown must be refused; file and ENV agree; the real binary refuses exactly what the probe refuses and displays the probe's values; observed behaviour: a Server built through the real file configuration path answers 2b+1 queued requests in batches of exactly {b, b, 1} for the written batch_size b; with per-client statistics the real binary persists a statistics file within 3.5 s of traffic for status_interval 1 and none for 600."));
     ctx.sample(json!({"key":"port","value":"70000","source":"File","expect":"refused"}));
     ctx.sample(json!({"key":"num_workers","value":"4","source":"Env","expect":"accepted, effective 4"}));
     ctx.assume("environment variable names follow the README table's pattern ROUGHENOUGH_<KEY>; num_workers/client_stats/persistence_directory are documented in the ServerConfig trait docs");
